@@ -2,6 +2,7 @@ import Driver.Pure
 import Driver.Flow
 import Driver.SWorld
 import Driver.CWorld
+import Driver.Registry
 /-!
   Model driver: one command per input line, one output line per command.
   `lake build driver && .lake/build/bin/driver < ops.txt`
@@ -13,6 +14,8 @@ structure DState where
   flow : FlowState := {}
   sw : SWState := {}
   cw : CWState := {}
+  reg : RegState := {}
+  life : LifeState := {}
 
 def stepLine (st : DState) (line : String) : DState × String :=
   match (line.trimAscii.toString.splitOn " ").filter (· ≠ "") with
@@ -29,7 +32,13 @@ def stepLine (st : DState) (line : String) : DState × String :=
         | none =>
           match cworldCmd st.cw cmd args with
           | some (w, out) => ({ st with cw := w }, out)
-          | none => (st, "bad-op")
+          | none =>
+            match regCmd st.reg cmd args with
+            | some (r, out) => ({ st with reg := r }, out)
+            | none =>
+              match lifeCmd st.life cmd args with
+              | some (l, out) => ({ st with life := l }, out)
+              | none => (st, "bad-op")
 
 partial def loop (h : IO.FS.Stream) (out : IO.FS.Stream) (st : DState) : IO Unit := do
   let line ← h.getLine
